@@ -218,6 +218,52 @@ func checkC35(c *Check) {
 			})
 		}
 	}
+	// (5) the encrypting stream buffers carry every byte region forward exactly once
+	if ir := r.ir("pkg/rpc.cryptoReader.Read"); ir != nil {
+		pos := r.pos(ir.Info.Decl.Pos())
+		txt := irText(ir)
+		isCopyTail := func(n Node) bool {
+			cn, ok := n.(*CallN)
+			return ok && cn.Builtin == "copy" && len(cn.Args) == 2 && strings.HasPrefix(cn.Args[0], "L") && cn.Args[1] == "item.buf[item.end:]" && len(cn.Results) == 1
+		}
+		isRead := func(n Node) bool {
+			cn, ok := n.(*CallN)
+			return ok && cn.Builtin == "dyn:item.r.Read"
+		}
+		iCopy, iRead := topIndex(ir.Body, isCopyTail), topIndex(ir.Body, isRead)
+		okCarry := iCopy >= 0 && iRead > iCopy
+		if okCarry {
+			cp, rd := ir.Body[iCopy].(*CallN), ir.Body[iRead].(*CallN)
+			okCarry = len(rd.Args) == 1 && rd.Args[0] == cp.Args[0]+"["+cp.Results[0]+":]"
+		}
+		c.Ob("crypto/leftover-carried-before-refill", "cryptoReader.Read", okCarry, pos, "the received-but-undecrypted tail buf[end:] is copied to the front of the read target unconditionally (top level, both the buffered and the direct path) and the underlying Read fills the target after it")
+		deliver := strings.HasPrefix(txt, "call copy recv=(buf, item.buf[item.begin:item.end]) -> [$]\nassign item.begin += $\n")
+		c.Ob("crypto/decrypted-bytes-delivered-first", "cryptoReader.Read", deliver, pos, "already decrypted bytes buf[begin:end] are handed out first and begin advances by the number copied")
+		whole := strings.Contains(txt, "call roundDownPow2 recv=(len($), item.blockSize) -> [$]\nif (item.enc != nil)\n  call dyn:item.enc.CryptBlocks recv=($[:$], $[:$]) -> []\n") && strings.Contains(txt, "assign $ = $[:($ + $)]\n")
+		c.Ob("crypto/whole-blocks-only", "cryptoReader.Read", whole, pos, "the target is cut to tail+m bytes and only roundDown(len, blockSize) bytes are decrypted, in place")
+		buffered := strings.Contains(txt, "if $\n  call copy recv=(buf[$:], $[:$]) -> [$]\n  assign $ += $\n  assign item.buf = $\n  assign item.begin = $\n  assign item.end = $\n")
+		direct := strings.Contains(txt, "else\n  assign $ += $\n  call copy recv=(item.buf[:cap(item.buf)], $[$:]) -> [$]\n  assign item.buf = item.buf[:$]\n  assign item.begin = #0\n  assign item.end = #0\n")
+		// identify the locals by their roles on the raw text
+		var sb strings.Builder
+		dumpBlock(&sb, ir.Body, "")
+		raw := sb.String()
+		m := regexp.MustCompile(`call roundDownPow2 recv=\(len\((L\d+:\w+)\), item\.blockSize\) -> \[(L\d+:\w+)\]`).FindStringSubmatch(raw)
+		roles := false
+		if m != nil {
+			tg, dec := regexp.QuoteMeta(m[1]), regexp.QuoteMeta(m[2])
+			roles = regexp.MustCompile(`call copy recv=\(buf\[(L\d+:\w+):\], `+tg+`\[:`+dec+`\]\) -> \[(L\d+:\w+)\]\n\s+assign L\d+:\w+ \+= L\d+:\w+\n\s+assign item\.buf = `+tg+`\n\s+assign item\.begin = L\d+:\w+\n\s+assign item\.end = `+dec+`\n`).MatchString(raw) &&
+				regexp.MustCompile(`assign L\d+:\w+ \+= `+dec+`\n\s+call copy recv=\(item\.buf\[:cap\(item\.buf\)\], `+tg+`\[`+dec+`:\]\) -> \[(L\d+:\w+)\]\n\s+assign item\.buf = item\.buf\[:L\d+:\w+\]`).MatchString(raw)
+		}
+		c.Ob("crypto/every-region-accounted", "cryptoReader.Read", buffered && direct && roles, pos, fmt.Sprintf("buffered path: decrypted prefix delivered, buf=target, begin=delivered, end=decrypt (tail kept in place)=%v; direct path: decrypt bytes delivered, target[decrypt:] saved to buf, begin=end=0=%v; operands are the target/decrypt locals=%v", buffered, direct, roles))
+	}
+	if ir := r.ir("pkg/rpc.cryptoWriter.flush"); ir != nil {
+		txt := irText(ir)
+		ok := strings.Contains(txt, "assign $ := (item.encStart + roundDownPow2((len(item.buf) - item.encStart), item.blockSize))\n") &&
+			strings.Contains(txt, "call dyn:item.enc.CryptBlocks recv=(item.buf[item.encStart:$], item.buf[item.encStart:$]) -> []\n  assign item.encStart = #0\n") &&
+			strings.Contains(txt, "call dyn:item.w.Write recv=(item.buf[:$]) -> [_ $]\n") &&
+			strings.HasSuffix(txt, "call copy recv=(item.buf, item.buf[$:]) -> [$]\nassign item.buf = item.buf[:$]\nreturn true, nil\n")
+		c.Ob("crypto/writer-keeps-partial-block", "cryptoWriter.flush", ok, r.pos(ir.Info.Decl.Pos()), "whole blocks after encStart are encrypted in place and written, the partial block is moved to the front and kept")
+	}
 	c.Floor("packet/reader-only-through-readfull", 4)
 	c.Floor("packet/body-crc-dominates-success", 1)
 	c.Floor("packet/header-tests-dominate-success", 1)
